@@ -31,7 +31,7 @@ REQUIRE = {
     "monitors": {"NLL == formula": 20, "NLL independent of batch size": 20, "value consistent across entry points": 20,
                  "invariant under common rescaling": 5, "CombineFCN == sum of parts": 3, "file loader NLL == formula": 2,
                  "gaussian constraint term": 3, "BaseModel.nll on raw weights == formula": 2},
-    "cover": {"model": ["default", "extended", "cfit", "cfit_cached", "cfit_extended", "cached_int", "cached_amp", "simple"],
+    "cover": {"model": ["default", "extended", "cfit", "cfit_cached", "cfit_extended", "cached_int", "cached_amp", "simple", "simple_cfit"],
               "phsp_weights": ["ones", "positive", "mixed_mild"]},
     "min_nontrivial": {"quick": 20, "thorough": 300},
 }
@@ -56,7 +56,7 @@ def make_card(rng, tag):
 def run(ctx):
     import tensorflow as tf
 
-    n_cases = ctx.pick(32, 1500)
+    n_cases = ctx.pick(36, 1500)
     for i, rng in ctx.cases("formula", n_cases, budget_s=ctx.pick(480, 2800)):
         tag = "_c06s%di%d" % (ctx.seed, i)
         model = MODEL_NAMES[i % len(MODEL_NAMES)]
